@@ -55,9 +55,9 @@ type Profile struct {
 	/* LateOut: a Read that is pending when the Connect call returns stays
 	pending (as net/http's does: closing the request body waits for it) and
 	may still be handed one more chunk. */
-	LateOut bool `json:"late_out,omitempty"`
-	Oracles     []string    `json:"oracles"`
-	MaxDepth    int         `json:"max_depth"`
+	LateOut  bool     `json:"late_out,omitempty"`
+	Oracles  []string `json:"oracles"`
+	MaxDepth int      `json:"max_depth"`
 	/* LinePayload, if set, is appended to every entered line. */
 	LinePayload string `json:"line_payload"`
 	/* GateAdmitted also parks every admitted stream right after the
